@@ -700,6 +700,31 @@ def gen_wf_program(rng):
             p.impls.append(pg.Impl(1, (tn, (adt("V", var(0)),)), [(bound.name, (var(0),))]))
         p.impls.append(pg.Impl(1, (top.name, (adt("V", var(0)),)), [("Q", (adt("B", var(0)), var(0)))]))
         p.shape += "+circular"
+    # where-clauses whose SELF / input type is an APPLIED type, made true by a blanket impl that does
+    # not establish the applied type's own bounds: `impl<T> Mk for B<T> {}` is a legitimate impl (an
+    # impl may assume its HEADER types well-formed), but a struct declaration may NOT assume the
+    # types of its where-clauses well-formed: `struct F<T> where B<T>: Mk { f: B<T> }` needs `T: bound`.
+    if rng.random() < 0.6:
+        p.traits.append(ETrait("Mk"))
+        p.impls.append(pg.Impl(1, ("Mk", (adt("B", var(0)),))))                      # impl<T> Mk for B<T>
+        p.traits.append(ETrait("Cv", 1))
+        p.impls.append(pg.Impl(2, ("Cv", (var(0), var(1)))))                          # impl<T, U> Cv<U> for T
+        BT = adt("B", var(0))
+        applied = [("struct where-clause on an applied type (B<T>: Mk) without the type's own bound",
+                    lambda q: q.adts.append(EAdt("F", 1, [impl_atom("Mk", BT)], [BT]))),
+                   ("struct where-clause on a nested applied type (W<B<T>>: Cv<T>) without the type's own bound",
+                    lambda q: q.adts.append(EAdt("F", 1, [impl_atom("Cv", adt("W", BT), var(0))], [adt("W", BT), var(0)]))),
+                   ("struct where-clause with an applied type as trait parameter (T: Cv<B<T>>) without the type's own bound",
+                    lambda q: q.adts.append(EAdt("F", 1, [impl_atom("Cv", var(0), BT)], [BT]))),
+                   ("two-parameter struct where-clause on an applied type (B<U>: Mk) without the type's own bound",
+                    lambda q: q.adts.append(EAdt("F", 2, [impl_atom("Mk", adt("B", var(1)))], [var(0), adt("B", var(1))]))),
+                   ("impl where-clause on an applied type (B<T>: Mk) that is not a header type",
+                    lambda q: q.impls.append(pg.Impl(1, (unary[0].name, (adt("W", adt("W", adt("W", adt("W", var(0))))),)), [("Mk", (BT,))])))]
+        muts = muts + applied + applied
+        if rng.random() < 0.5:
+            # sound counterparts: the applied type's bound is declared as well / the applied type is a header type
+            p.adts.append(EAdt("FS", 1, [impl_atom("Mk", BT), impl_atom(bound.name, var(0))], [BT]))
+            p.impls.append(pg.Impl(1, ("Mk", (adt("W", BT),)), [("Mk", (BT,))]))      # impl<T> Mk for W<B<T>> where B<T>: Mk
     missing = None
     if muts and rng.random() < 0.45:
         missing, f = rng.choice(muts)
@@ -821,4 +846,14 @@ def corpus_c21():
     p.impls[1].upstream = True
     p.adts[0].upstream = True
     out.append((p, {"missing": "where-clause of an #[upstream] impl"}))
+    # a struct declaration must not assume the types of its where-clauses well-formed (an impl header may):
+    # struct Set<K> where K: Hash {}  impl<K> Marker for Set<K> {}  struct Foo<T> where Set<T>: Marker { value: Set<T> }
+    def setp(extra_adts, extra_impls=()):
+        return EProg([EAdt("NotHash"), EAdt("Set", 1, [impl_atom("Hash", var(0))], [])] + extra_adts, [ETrait("Hash"), ETrait("Marker")],
+                     [pg.Impl(1, ("Marker", (adt("Set", var(0)),)))] + list(extra_impls), "corpus-applied-where")
+    ST = adt("Set", var(0))
+    out.append((setp([EAdt("Foo", 1, [impl_atom("Marker", ST)], [ST])]), {"missing": "bound of the applied type of a struct where-clause"}))
+    out.append((setp([EAdt("Foo", 1, [impl_atom("Marker", ST), impl_atom("Hash", var(0))], [ST])]), {"missing": None}))
+    out.append((setp([EAdt("Foo2", 2, [impl_atom("Marker", adt("Set", var(1)))], [var(0), adt("Set", var(1))])]),
+                {"missing": "bound of the applied type of a struct where-clause (second parameter)"}))
     return out
